@@ -20,11 +20,12 @@ type Knowledge struct {
 	pings  map[int][]uint32 // conn -> ping ids the server issued
 	sids   map[int]bool
 	isDead map[int]bool
+	owner  map[int]map[int]int // sid -> entity id -> connection that added it
 }
 
 func newKnowledge() *Knowledge {
 	return &Knowledge{joined: map[int][2]int{}, maxEid: map[int]int{}, maxTid: map[int]int{}, maxPid: map[int]int{},
-		pings: map[int][]uint32{}, sids: map[int]bool{}, isDead: map[int]bool{}}
+		pings: map[int][]uint32{}, sids: map[int]bool{}, isDead: map[int]bool{}, owner: map[int]map[int]int{}}
 }
 
 func atoi(s string) int { n, _ := strconv.Atoi(s); return n }
@@ -53,6 +54,10 @@ func (k *Knowledge) observe(c int, tok string) {
 			if e := atoi(f[2]); e > k.maxEid[j[0]] {
 				k.maxEid[j[0]] = e
 			}
+			if k.owner[j[0]] == nil {
+				k.owner[j[0]] = map[int]int{}
+			}
+			k.owner[j[0]][atoi(f[2])] = c
 		}
 	case "typeAddResp":
 		if j, ok := k.joined[c]; ok {
@@ -609,6 +614,13 @@ func (g *Gen) pickConcurrent(k int) []int {
 		}
 		return chosen
 	}
+	// one block in five sets what is attached to an entity against the entity's removal: its owner deletes it, leaves
+	// or goes away while other members add or update a component of it, set an action on it, or a newcomer enters
+	if g.rnd.Intn(5) == 0 {
+		if chosen := g.attachAgainstRemoval(k, bySession, outsiders); chosen != nil {
+			return chosen
+		}
+	}
 	if target >= 0 && g.rnd.Intn(3) > 0 {
 		members := bySession[target]
 		var chosen []int
@@ -688,6 +700,98 @@ func (g *Gen) pickConcurrent(k int) []int {
 		g.w.Recv(c, r)
 	}
 	return live
+}
+
+// attachAgainstRemoval builds a block around one entity whose owner is a live member of a session with other members.
+func (g *Gen) attachAgainstRemoval(k int, bySession map[int][]int, outsiders []int) []int {
+	kn := g.w.know
+	for _, sid := range sortedKeys(kn.sids) {
+		members := bySession[sid]
+		if len(members) < 2 {
+			continue
+		}
+		var eids []int
+		for e, o := range kn.owner[sid] {
+			if j, ok := kn.joined[o]; ok && j[0] == sid && !kn.isDead[o] {
+				eids = append(eids, e)
+			}
+		}
+		if len(eids) == 0 {
+			continue
+		}
+		sortInts(eids)
+		eid := eids[g.rnd.Intn(len(eids))]
+		own := kn.owner[sid][eid]
+		if kn.maxTid[sid] == 0 { // a component needs a type
+			g.do(own, &wire.Req{Kind: "typeAdd", Str: g.name()})
+		}
+		tid := uint32(1)
+		if kn.maxTid[sid] > 1 {
+			tid = uint32(1 + g.rnd.Intn(kn.maxTid[sid]))
+		}
+		plan := map[int]*wire.Req{}
+		chosen := []int{own}
+		switch g.rnd.Intn(4) {
+		case 0:
+			chosen[0] = -own // the connection just goes away
+		case 1:
+			r := g.RequestOf(own, "join")
+			r.Target, r.TargetN = "new", 0
+			plan[own] = r
+		default:
+			r := g.RequestOf(own, "entityDelete")
+			r.N1 = uint32(eid)
+			plan[own] = r
+		}
+		framed := false
+		for _, c := range members {
+			if len(chosen) >= k {
+				break
+			}
+			if c == own {
+				continue
+			}
+			var r *wire.Req
+			switch g.rnd.Intn(6) {
+			case 0, 1, 2:
+				r = g.RequestOf(c, "compAdd")
+				r.N1, r.N2 = tid, uint32(eid)
+			case 3:
+				r = g.RequestOf(c, "action")
+				if r.Act == nil {
+					r.Act = &wire.Action{Name: g.name(), Data: g.smallBytes(), Ts: &wire.Ts{Secs: secsPool[0]}}
+				}
+				r.Act.Eid = uint32(eid)
+			case 4:
+				r = g.RequestOf(c, "compUpdate")
+				r.N1, r.N2 = tid, uint32(eid)
+				framed = true
+			default:
+				r = g.RequestOf(c, "compDelete")
+				r.N1, r.N2 = tid, uint32(eid)
+			}
+			plan[c] = r
+			chosen = append(chosen, c)
+		}
+		if len(chosen) < k && len(outsiders) > 0 {
+			c := outsiders[0]
+			r := g.RequestOf(c, "join")
+			r.Target, r.TargetN = "id", uint32(sid)
+			plan[c] = r
+			chosen = append(chosen, c)
+		}
+		sortInts(chosen)
+		for _, c := range chosen {
+			if c > 0 {
+				g.w.Recv(c, plan[c])
+			}
+		}
+		if framed {
+			g.w.Tick(sid)
+		}
+		return chosen
+	}
+	return nil
 }
 
 // settle flushes every pending update and handles every queued message.
